@@ -163,3 +163,59 @@ theorem forced_worldOf (ν : BaseValues) (S : List Iv) (i : Iv) (hi : i ∈ S) (
       exact ih hi' (fun a ha b hb => hS a (by simp [ha]) b (by simp [hb]))
 
 end Y0.Fscm
+
+namespace Y0.Fscm
+
+/-- generalisation of `prob_filter_of_always` to a list that is mapped to conjuncts -/
+theorem prob_map_filter {α} (M : Model) (l : List α) (f : α → Conjunct) (keep : α → Bool)
+    (h : ∀ a ∈ l, keep a = false → ∀ u, holds M u (f a) = true) :
+    prob M ((l.filter keep).map f) = prob M (l.map f) := by
+  apply prob_congr
+  intro u
+  rw [Bool.eq_iff_iff]
+  simp only [List.all_eq_true, List.mem_map, List.mem_filter]
+  constructor
+  · rintro hall c ⟨a, ha, rfl⟩
+    by_cases hk : keep a = true
+    · exact hall _ ⟨a, ⟨ha, hk⟩, rfl⟩
+    · exact h a ha (by simpa using hk) u
+  · rintro hall c ⟨a, ⟨ha, _⟩, rfl⟩
+    exact hall _ ⟨a, ha, rfl⟩
+
+/-- an event over variables of the model, with values named after their variable and consistent subscript sets:
+the quantifier of C07 / C08 / C18 ("V under interventions S takes value v, S a consistent value assignment") -/
+structure EventWF (M : Model) (ev : List (Var × Iv)) : Prop where
+  names : ∀ p ∈ ev, p.2.name = p.1.name
+  inModel : ∀ p ∈ ev, p.1.name ∈ M.order
+  subs : ∀ p ∈ ev, ConsistentSubs p.1.ivs
+
+/-- a conjunct `V_S = v` whose subscript fixes `V` itself to the OTHER value never holds -/
+theorem holds_false_of_effectiveness (M : Model) (ν : BaseValues) (hν : ν.Distinct) (p : Var × Iv) (i : Iv)
+    (hi : i ∈ p.1.ivs) (hname : i.name = p.2.name) (hstar : i.star ≠ p.2.star)
+    (hn : p.2.name = p.1.name) (hm : p.1.name ∈ M.order) (hs : ConsistentSubs p.1.ivs) (u : NoisePoint) :
+    holds M u (conjunctOf ν p) = false := by
+  have hf := forced_worldOf ν p.1.ivs i hi hs
+  apply holds_false_of_forced_ne M u (conjunctOf ν p) (ivValue ν i) hm
+  · simpa [conjunctOf, hname, hn] using hf
+  · simp only [conjunctOf, ivValue, hname]
+    rcases i with ⟨n, s⟩
+    rcases p with ⟨v, ⟨n', s'⟩⟩
+    simp only at hname hstar hn ⊢
+    subst hname
+    cases s <;> cases s'
+    · exact absurd rfl hstar
+    · exact hν n
+    · exact (hν n).symm
+    · exact absurd rfl hstar
+
+/-- a conjunct `V_S = v` whose subscript fixes `V` itself to the SAME value always holds -/
+theorem holds_true_of_tautology (M : Model) (ν : BaseValues) (p : Var × Iv) (i : Iv)
+    (hi : i ∈ p.1.ivs) (hname : i.name = p.2.name) (hstar : i.star = p.2.star)
+    (hn : p.2.name = p.1.name) (hm : p.1.name ∈ M.order) (hs : ConsistentSubs p.1.ivs) (u : NoisePoint) :
+    holds M u (conjunctOf ν p) = true := by
+  have hf := forced_worldOf ν p.1.ivs i hi hs
+  apply holds_true_of_forced_eq M u (conjunctOf ν p) hm
+  have : ivValue ν i = ivValue ν p.2 := by simp [ivValue, hname, hstar]
+  simpa [conjunctOf, hname, hn, this] using hf
+
+end Y0.Fscm
